@@ -61,6 +61,7 @@ func sampled(t *rapid.T, label string, pool []string) string {
 type GenCfg struct {
 	MaxDepth      int // command nesting below the root
 	MaxCmds       int
+	MinCmds       int // minimum number of sub-commands attempted at the root and first level
 	MaxOpts       int
 	MinOpts       int
 	Kinds         []Kind
@@ -209,7 +210,11 @@ func (g *genCtx) cmd(name string, depth int, used map[string]bool) CmdSpec {
 		c.Opts = append(c.Opts, g.opt(myUsed, i))
 	}
 	if depth < g.cfg.MaxDepth {
-		ncmds := rapid.IntRange(0, g.cfg.MaxCmds).Draw(t, "ncmds")
+		lo := 0
+		if depth <= 1 && g.cfg.MinCmds > 0 {
+			lo = g.cfg.MinCmds
+		}
+		ncmds := rapid.IntRange(lo, max(lo, g.cfg.MaxCmds)).Draw(t, "ncmds")
 		seen := map[string]bool{}
 		for i := 0; i < ncmds; i++ {
 			cn := rapid.SampledFrom(cmdPool).Draw(t, "cmdname")
